@@ -178,24 +178,146 @@ func errSwitchKernel(rel, fn string, markers []string, leanName, params string, 
 // case conditions returning 0 = FrozenSTHGetter, 1 = MirrorSTHGetter, 2 = LogSTHGetter.
 func getterSelect(rel string, sp Spec) func() string {
 	kinds := map[string]int{"FrozenSTHGetter": 0, "MirrorSTHGetter": 1, "LogSTHGetter": 2}
+	// litKind: e is &T{…} with T one of the three getters
+	litKind := func(e ast.Expr) (int, bool) {
+		u, ok := e.(*ast.UnaryExpr)
+		if !ok || u.Op != token.AND {
+			return 0, false
+		}
+		cl, ok := u.X.(*ast.CompositeLit)
+		if !ok {
+			return 0, false
+		}
+		k, ok := kinds[src(cl.Type)]
+		return k, ok
+	}
+	// cond: a selection condition as a Lean Bool over frozenSet / isMirror. Recognised by role, not by the local names:
+	// `<…>.FrozenSTH != nil` / `== nil` (also through `v := <…>.FrozenSTH; v != nil`), `<…>.IsMirror`, `!<…>.IsMirror`.
+	cond := func(init ast.Stmt, e ast.Expr) string {
+		bound := map[string]string{}
+		if as, ok := init.(*ast.AssignStmt); ok && as.Tok == token.DEFINE && len(as.Lhs) == 1 && len(as.Rhs) == 1 {
+			bound[src(as.Lhs[0])] = norm(src(as.Rhs[0]))
+		} else if init != nil {
+			failf(init, "unrecognised init statement in the STH getter selection")
+		}
+		role := func(x ast.Expr) string {
+			t := norm(src(x))
+			if v, ok := bound[t]; ok {
+				t = v
+			}
+			switch {
+			case strings.HasSuffix(t, ".FrozenSTH"):
+				return "frozen"
+			case strings.HasSuffix(t, ".IsMirror"):
+				return "mirror"
+			}
+			return ""
+		}
+		var f func(x ast.Expr) string
+		f = func(x ast.Expr) string {
+			switch y := x.(type) {
+			case *ast.ParenExpr:
+				return f(y.X)
+			case *ast.UnaryExpr:
+				if y.Op == token.NOT {
+					return "(!" + f(y.X) + ")"
+				}
+			case *ast.BinaryExpr:
+				if (y.Op == token.NEQ || y.Op == token.EQL) && src(y.Y) == "nil" && role(y.X) == "frozen" {
+					if y.Op == token.NEQ {
+						return "frozenSet"
+					}
+					return "(!frozenSet)"
+				}
+			case *ast.SelectorExpr, *ast.Ident:
+				if role(y) == "mirror" {
+					return "isMirror"
+				}
+			}
+			failf(x, "unrecognised STH getter selection condition %s", src(x))
+			return ""
+		}
+		return f(e)
+	}
 	return func() string {
 		fd := mustFunc(rel, "newLogInfo")
-		t := &tr{sp: sp}
+		var assigns []*ast.AssignStmt
+		ast.Inspect(fd.Body, func(n ast.Node) bool {
+			if a, ok := n.(*ast.AssignStmt); ok && len(a.Lhs) == 1 && src(a.Lhs[0]) == "li.sthGetter" {
+				assigns = append(assigns, a)
+			}
+			return true
+		})
+		header := "/-- generated from %s func newLogInfo: which STH getter is installed (0 frozen, 1 mirror, 2 log) -/\ndef sthGetterSelect (frozenSet isMirror : Bool) : Nat :=\n  %s\n"
+		// shape B: `li.sthGetter = li.newX()` / `newX(…)`, the selection being a chain of early returns in that same-file function
+		if len(assigns) == 1 && len(assigns[0].Rhs) == 1 {
+			if c, ok := assigns[0].Rhs[0].(*ast.CallExpr); ok {
+				var h *ast.FuncDecl
+				switch fn := c.Fun.(type) {
+				case *ast.Ident:
+					h = findFunc(parseFile(rp(rel)), fn.Name)
+				case *ast.SelectorExpr:
+					if src(fn.X) == "li" {
+						h = findFunc(parseFile(rp(rel)), "logInfo."+fn.Sel.Name)
+					}
+				}
+				if h == nil {
+					failf(c, "li.sthGetter is assigned the result of a call that is not a function of this file")
+				}
+				body := ""
+				done := false
+				for _, st := range h.Body.List {
+					if done {
+						failf(st, "statement after the final return of the STH getter selection")
+					}
+					switch x := st.(type) {
+					case *ast.ReturnStmt:
+						k, ok := 0, false
+						if len(x.Results) == 1 {
+							k, ok = litKind(x.Results[0])
+						}
+						if !ok {
+							failf(x, "the STH getter selection does not return &T{…}")
+						}
+						body += strconv.Itoa(k)
+						done = true
+					case *ast.IfStmt:
+						if !hasReturn(x.Body.List) && !hasReturn(elseList(x.Else)) {
+							continue // prepares a value (`if st == nil { st = … }`), selects nothing
+						}
+						if x.Else != nil || len(x.Body.List) != 1 {
+							failf(x, "unrecognised branch in the STH getter selection")
+						}
+						r, ok := x.Body.List[0].(*ast.ReturnStmt)
+						k, ok2 := 0, false
+						if ok && len(r.Results) == 1 {
+							k, ok2 = litKind(r.Results[0])
+						}
+						if !ok2 {
+							failf(x, "the STH getter selection does not return &T{…}")
+						}
+						body += "if " + cond(x.Init, x.Cond) + " then " + strconv.Itoa(k) + " else\n  "
+					case *ast.AssignStmt, *ast.DeclStmt:
+						// local preparation
+					default:
+						failf(st, "unrecognised statement in the STH getter selection (%T)", st)
+					}
+				}
+				if !done {
+					panic(bail{rel + ": the STH getter selection has no final return"})
+				}
+				return fmt.Sprintf(header, rel, body)
+			}
+		}
+		// shape A: a tagless switch in newLogInfo whose every clause assigns li.sthGetter = &T{…}
 		ss := findStmts(fd, func(s ast.Stmt) bool {
 			sw, ok := s.(*ast.SwitchStmt)
 			return ok && sw.Tag == nil && strings.Contains(src(sw.Body), "li.sthGetter")
 		})
 		if len(ss) != 1 {
-			panic(bail{fmt.Sprintf("%s: expected one tagless switch assigning li.sthGetter in newLogInfo, found %d", rel, len(ss))})
+			panic(bail{fmt.Sprintf("%s: expected one tagless switch assigning li.sthGetter in newLogInfo (or one call of a selecting function), found %d", rel, len(ss))})
 		}
-		// no other assignment to li.sthGetter anywhere in the function
-		total := 0
-		ast.Inspect(fd.Body, func(n ast.Node) bool {
-			if a, ok := n.(*ast.AssignStmt); ok && len(a.Lhs) == 1 && src(a.Lhs[0]) == "li.sthGetter" {
-				total++
-			}
-			return true
-		})
+		total := len(assigns)
 		body := ""
 		def := ""
 		inSwitch := 0
@@ -209,17 +331,9 @@ func getterSelect(rel string, sp Spec) func() string {
 						return true
 					}
 					inSwitch++
-					u, ok := a.Rhs[0].(*ast.UnaryExpr)
-					if !ok || u.Op != token.AND {
-						failf(a, "li.sthGetter is not assigned &T{…}")
-					}
-					cl, ok := u.X.(*ast.CompositeLit)
+					k, ok := litKind(a.Rhs[0])
 					if !ok {
-						failf(a, "li.sthGetter is not assigned &T{…}")
-					}
-					k, ok := kinds[src(cl.Type)]
-					if !ok {
-						failf(a, "unknown STH getter type %s", src(cl.Type))
+						failf(a, "li.sthGetter is not assigned &T{…} of a known STH getter type")
 					}
 					if kind != -1 {
 						failf(a, "two assignments to li.sthGetter in one case")
@@ -238,7 +352,7 @@ func getterSelect(rel string, sp Spec) func() string {
 			if len(cc.List) != 1 {
 				failf(cc, "case with several conditions")
 			}
-			body += "if " + t.expr(cc.List[0]) + " then " + strconv.Itoa(kind) + " else\n  "
+			body += "if " + cond(nil, cc.List[0]) + " then " + strconv.Itoa(kind) + " else\n  "
 		}
 		if def == "" {
 			panic(bail{rel + ": getter switch has no default"})
@@ -246,7 +360,7 @@ func getterSelect(rel string, sp Spec) func() string {
 		if total != inSwitch {
 			panic(bail{rel + ": li.sthGetter is assigned outside the selection switch"})
 		}
-		return fmt.Sprintf("/-- generated from %s func newLogInfo: which STH getter is installed (0 frozen, 1 mirror, 2 log) -/\ndef sthGetterSelect (frozenSet isMirror : Bool) : Nat :=\n  %s%s\n", rel, body, def)
+		return fmt.Sprintf(header, rel, body+def)
 	}
 }
 
@@ -732,34 +846,140 @@ func rejectCondsKernel(rel, fn string, markers []string, atLeast int, leanName, 
 func windowCondKernel(rel, fn, leanName string) func() string {
 	return func() string {
 		fd := mustFunc(rel, fn)
-		t := &tr{sp: Spec{Kind: "i64", Canon: true}, file: parseFile(rp(rel))}
-		t.prepare(fd)
 		var hit *ast.IfStmt
 		n := 0
-		for _, st := range findStmts(fd, func(s ast.Stmt) bool {
-			i, ok := s.(*ast.IfStmt)
-			return ok && strings.Contains(src(i.Cond), ".Before(") && strings.Contains(src(i.Cond), "NotAfter")
-		}) {
-			hit = st.(*ast.IfStmt)
-			n++
+		// the comparison sits in fn or in a same-file helper it calls (one level): an `if` whose condition calls Before/After and
+		// whose function mentions the NotAfter fields
+		for _, g := range funcsReachable(rel, fn) {
+			if !strings.Contains(src(g.Body), "NotAfter") {
+				continue
+			}
+			for _, st := range findStmts(g, func(s ast.Stmt) bool {
+				i, ok := s.(*ast.IfStmt)
+				return ok && (strings.Contains(src(i.Cond), ".Before(") || strings.Contains(src(i.Cond), ".After(")) && (strings.Contains(src(i.Cond), "NotAfter") || g != fd)
+			}) {
+				hit = st.(*ast.IfStmt)
+				fd = g
+				n++
+			}
 		}
 		if n != 1 {
 			panic(bail{fmt.Sprintf("%s: expected one `if` comparing the NotAfter bounds with Before in %s, found %d", rel, fn, n)})
 		}
+		t := &tr{sp: Spec{Kind: "i64", Canon: true}, file: parseFile(rp(rel))}
+		t.prepare(fd)
 		if !endsInErrReturn(hit.Body.List) || hit.Else != nil || hit.Init != nil {
 			failf(hit, "the NotAfter comparison is not a plain rejection")
 		}
 		t.aliasesOnPathTo(hit)
+		// origins: for a local that is only ever assigned (`v = &t`, `t := ts.AsTime()`, `if ts := cfg.NotAfterX; …`), the access
+		// paths its value comes from, each resolved in the scope of the assignment
+		origins := func(name string) []string {
+			var out []string
+			var resolve func(e ast.Expr, env map[string]ast.Expr, depth int) string
+			resolve = func(e ast.Expr, env map[string]ast.Expr, depth int) string {
+				for depth < 8 {
+					depth++
+					switch x := e.(type) {
+					case *ast.ParenExpr:
+						e = x.X
+						continue
+					case *ast.StarExpr:
+						e = x.X
+						continue
+					case *ast.UnaryExpr:
+						if x.Op == token.AND {
+							e = x.X
+							continue
+						}
+					case *ast.CallExpr:
+						if sel, ok := x.Fun.(*ast.SelectorExpr); ok && sel.Sel.Name == "AsTime" && len(x.Args) == 0 {
+							e = sel.X
+							continue
+						}
+					case *ast.Ident:
+						if d, ok := env[x.Name]; ok {
+							e = d
+							continue
+						}
+					}
+					break
+				}
+				return norm(src(e))
+			}
+			var walk func(list []ast.Stmt, env map[string]ast.Expr)
+			walk = func(list []ast.Stmt, env map[string]ast.Expr) {
+				env2 := map[string]ast.Expr{}
+				for k, v := range env {
+					env2[k] = v
+				}
+				env = env2
+				def := func(st ast.Stmt) {
+					as, ok := st.(*ast.AssignStmt)
+					if !ok || len(as.Lhs) != len(as.Rhs) {
+						return
+					}
+					for k := range as.Lhs {
+						id, ok := as.Lhs[k].(*ast.Ident)
+						if !ok {
+							continue
+						}
+						if id.Name == name && as.Tok == token.ASSIGN {
+							out = append(out, resolve(as.Rhs[k], env, 0))
+						} else if as.Tok == token.DEFINE {
+							env[id.Name] = as.Rhs[k]
+						}
+					}
+				}
+				for _, st := range list {
+					switch x := st.(type) {
+					case *ast.AssignStmt:
+						def(x)
+					case *ast.IfStmt:
+						env3 := map[string]ast.Expr{}
+						for k, v := range env {
+							env3[k] = v
+						}
+						saved := env
+						env = env3
+						if x.Init != nil {
+							def(x.Init)
+						}
+						walk(x.Body.List, env)
+						walk(elseList(x.Else), env)
+						env = saved
+					case *ast.BlockStmt:
+						walk(x.List, env)
+					}
+				}
+			}
+			walk(fd.Body.List, map[string]ast.Expr{})
+			return out
+		}
 		which := func(e ast.Expr) string {
 			c := norm(src(t.subst(e)))
 			c = strings.TrimSuffix(strings.TrimPrefix(strings.TrimPrefix(c, "(*"), "*"), ")")
-			switch {
-			case strings.HasSuffix(c, "NotAfterStart"):
-				return "start"
-			case strings.HasSuffix(c, "NotAfterLimit"):
-				return "limit"
+			cs := []string{c}
+			if !strings.Contains(c, ".") {
+				if os := origins(c); len(os) > 0 {
+					cs = os
+				}
 			}
-			return ""
+			r := ""
+			for i, c := range cs {
+				w := ""
+				switch {
+				case strings.HasSuffix(c, "NotAfterStart"):
+					w = "start"
+				case strings.HasSuffix(c, "NotAfterLimit"):
+					w = "limit"
+				}
+				if i > 0 && w != r {
+					return ""
+				}
+				r = w
+			}
+			return r
 		}
 		var conj func(e ast.Expr) string
 		conj = func(e ast.Expr) string {
@@ -962,7 +1182,7 @@ func segmentsKernel(rel, fn, leanName, params string, sp Spec) func() string {
 	return func() string {
 		fd := mustFunc(rel, fn)
 		var segs []string
-		for _, st := range fd.Body.List {
+		for i, st := range fd.Body.List {
 			if !hasReturn([]ast.Stmt{st}) {
 				continue
 			}
@@ -972,7 +1192,16 @@ func segmentsKernel(rel, fn, leanName, params string, sp Spec) func() string {
 			t := &tr{sp: sp, file: parseFile(rp(rel))}
 			t.prepare(fd)
 			t.aliasesOnPathTo(st)
-			segs = append(segs, "(" + strings.ReplaceAll(t.block([]ast.Stmt{st}, "true", "    "), "\n", "\n  ") + ")")
+			seg := []ast.Stmt{st}
+			// `…, err := helper(…)` directly followed by `if err != nil { return … }` is one statement that can return
+			if is, ok := st.(*ast.IfStmt); ok && is.Init == nil && norm(src(is.Cond)) == "err!=nil" && i > 0 {
+				if as, ok := fd.Body.List[i-1].(*ast.AssignStmt); ok && len(as.Rhs) == 1 && src(as.Lhs[len(as.Lhs)-1]) == "err" {
+					if _, isCall := as.Rhs[0].(*ast.CallExpr); isCall {
+						seg = []ast.Stmt{as, st}
+					}
+				}
+			}
+			segs = append(segs, "(" + strings.ReplaceAll(t.block(seg, "true", "    "), "\n", "\n  ") + ")")
 		}
 		return fmt.Sprintf("/-- generated from %s func %s: its top-level statements that can return, in source order, each as \"does not reject\" -/\ndef %s %s : List Bool :=\n  [%s]\n",
 			rel, fn, leanName, params, strings.Join(segs, ",\n   "))
@@ -988,7 +1217,10 @@ func init() {
 			"(logId_ : Int) (pubSet pubBad isMirror frozenSet privSet privBad rejectExpired rejectUnexpired ekuBad startSet startBad limitSet limitBad : Bool) (start_ limit_ max_ exp_ : Int) (verifierFails shapeFails sigFails : Bool) (storage_ connLen nParts : Int) (scheme_ : String) (dsnBad pgBad : Bool)",
 			Spec{Kind: "i64", Lazy: true, Canon: true, Inline: true, ParamNames: []string{"cfg"}, Ret: "errlastbool", Ignore: []string{"klog."},
 				IgnoreLHS: []string{"vCfg.PrivKey", "vCfg.KeyUsages", "vCfg.NotAfterStart", "*vCfg.NotAfterStart", "vCfg.NotAfterLimit", "*vCfg.NotAfterLimit",
-					"vCfg.FrozenSTH", "vCfg.CTFEStorageConnectionString", "vCfg.ExtraDataIssuanceChainStorageBackend", "vCfg.PubKey"},
+					"vCfg.FrozenSTH", "vCfg.CTFEStorageConnectionString", "vCfg.ExtraDataIssuanceChainStorageBackend", "vCfg.PubKey",
+					// the bounds kept in locals of a helper before they reach vCfg (`start = &t`): like the vCfg fields above, what is
+					// stored is not followed here (C18's windowVerbatim does that); `*start` / `limit` below name the two times compared
+					"start", "limit"},
 				InitCond: map[string]string{
 					"pubKey := cfg.PublicKey ; pubKey != nil":                                   "pubSet",
 					"vCfg.PubKey, err = x509.ParsePKIXPublicKey(pubKey.Der) ; err != nil":       "pubBad",
@@ -1004,12 +1236,13 @@ func init() {
 					"_, err := mysql.ParseDSN(conn[1]) ; err != nil":                            "dsnBad",
 					"_, err := pgconn.ParseConfig(cfg.CtfeStorageConnectionString) ; err != nil": "pgBad"},
 				RangeAnyReturn: map[string]string{"cfg.ExtKeyUsages": "ekuBad"},
-				InitCondByCall: map[string]string{".ToSignedTreeHead": "shapeFails", ".VerifySTHSignature": "sigFails", ".ParseDSN": "dsnBad", ".ParseConfig": "pgBad"},
+				InitCondByCall: map[string]string{".ToSignedTreeHead": "shapeFails", ".VerifySTHSignature": "sigFails", ".ParseDSN": "dsnBad", ".ParseConfig": "pgBad", ".ParsePKIXPublicKey": "pubBad"},
 				ErrCalls: map[string]string{"cfg.PrivateKey.UnmarshalNew": "privBad", "ct.NewSignatureVerifier": "verifierFails", "(&ct.GetSTHResponse{": "shapeFails"},
 				Repl: withConsts(c, map[string]string{"cfg.LogId": "logId_", "cfg.IsMirror": "isMirror", "cfg.FrozenSth != nil": "frozenSet", "cfg.PrivateKey == nil": "(!privSet)", "cfg.PrivateKey != nil": "privSet", "cfg.PublicKey != nil": "pubSet", "pubKey != nil": "pubSet",
 					"cfg.NotAfterStart != nil": "startSet", "cfg.NotAfterLimit != nil": "limitSet", "start != nil": "startSet", "limit != nil": "limitSet",
 					"vCfg.NotAfterStart != nil": "startSet", "vCfg.NotAfterLimit != nil": "limitSet", "vCfg.NotAfterLimit": "limit_", "vCfg.NotAfterStart": "start_",
 					"(*vCfg.NotAfterLimit)": "limit_", "*vCfg.NotAfterLimit": "limit_", "(*vCfg.NotAfterStart)": "start_", "*vCfg.NotAfterStart": "start_",
+					"*start": "start_", "*limit": "limit_", "limit": "limit_", "start": "start_",
 					"len(cfg.ExtKeyUsages) > 0": "true", "cfg.ExtraDataIssuanceChainStorageBackend": "storage_", "conn[0]": "scheme_",
 					"configpb.LogConfig_ISSUANCE_CHAIN_STORAGE_BACKEND_CTFE": "(1 : Int)", "configpb.LogConfig_ISSUANCE_CHAIN_STORAGE_BACKEND_TRILLIAN_GRPC": "(0 : Int)", "len(cfg.CtfeStorageConnectionString)": "connLen", "len(conn)": "nParts",
 					"cfg.RejectExpired": "rejectExpired", "cfg.RejectUnexpired": "rejectUnexpired",
@@ -1025,9 +1258,11 @@ func init() {
 		{"setUpLogInfoBody", handlerKernel("trillian/ctfe/instance.go", "setUpLogInfo", "setUpLogInfoBody",
 			"(isMirror : Bool) (nRoots : Int) (rootsFail signerFails pubSet pubEcdsa pubEd25519 pubRsa pubConsistent oidsFail storageFails storageNil cacheFails : Bool)",
 			"Nat × Bool", "", "(0, false)",
-			Spec{Kind: "i64", Lazy: true, Canon: true, ParamNames: []string{"ctx", "opts"}, Ret: "statusstate", Ignore: []string{"klog."},
+			Spec{Kind: "i64", Lazy: true, Canon: true, Inline: true, ParamNames: []string{"ctx", "opts"}, Ret: "statusstate", Ignore: []string{"klog."},
 				Status: map[string]int{"nil": 0, "newLogInfo(opts, validationOpts, signer, new(util.SystemTimeSource), &directIssuanceChainService{})": 1, "logInfo": 2,
-					"newLogInfo(opts, validationOpts, signer, new(util.SystemTimeSource), issuanceChainService)": 2},
+					// the same under the canonical (alias-substituted) name of the service argument: which service is handed to newLogInfo
+					"newLogInfo(opts,validationOpts,signer,new(util.SystemTimeSource),&directIssuanceChainService{})": 1,
+					"newLogInfo(opts,validationOpts,signer,new(util.SystemTimeSource),newIndirectIssuanceChainService(issuanceChainStorage,issuanceChainCache))": 2},
 				RangeAnyReturn: map[string]string{"opts.Validated.Config.RootsPemFile": "rootsFail", "cfg.RootsPemFile": "rootsFail"},
 				ErrCalls: map[string]string{"keys.NewSigner": "signerFails", "parseOIDs": "oidsFail", "storage.NewIssuanceChainStorage": "storageFails", "cache.NewIssuanceChainCache": "cacheFails"},
 				TypeSwitch: map[string]map[string]string{"opts.Validated.PubKey": {"*ecdsa.PublicKey": "pubEcdsa", "ed25519.PublicKey": "pubEd25519", "*rsa.PublicKey": "pubRsa"},
